@@ -952,7 +952,7 @@ func firstPublishers(seed int64, rep *report, workdir string, ntopics, npub int)
 	published := map[string][]sent{}
 	for t := 0; t < ntopics; t++ {
 		topic := fmt.Sprintf("c12f_%d", t)
-		start := make(chan struct{})
+		var start, ready int32
 		var wg sync.WaitGroup
 		for i, c := range conns {
 			wg.Add(1)
@@ -960,7 +960,10 @@ func firstPublishers(seed int64, rep *report, workdir string, ntopics, npub int)
 				defer wg.Done()
 				body := fmt.Sprintf("f.%d.%d", t, i)
 				kind := (t + i) % 3
-				<-start
+				// (the request is written the moment the flag flips: everybody spins on it)
+				atomic.AddInt32(&ready, 1)
+				for atomic.LoadInt32(&start) == 0 {
+				}
 				var ok bool
 				switch kind {
 				case 0:
@@ -985,8 +988,10 @@ func firstPublishers(seed int64, rep *report, workdir string, ntopics, npub int)
 				mu.Unlock()
 			}(i, c)
 		}
-		time.Sleep(200 * time.Microsecond)
-		close(start)
+		for atomic.LoadInt32(&ready) < int32(len(conns)) {
+			time.Sleep(50 * time.Microsecond)
+		}
+		atomic.StoreInt32(&start, 1)
 		wg.Wait()
 	}
 	// consume every topic and compare the ids
@@ -1039,7 +1044,7 @@ func main() {
 	out := flag.String("out", "ids.ndjson", "trace for TopicIdsTrace.tla")
 	repPath := flag.String("report", "ids.json", "report")
 	workdir := flag.String("workdir", "", "scratch directory")
-	firstTopics := flag.Int("first-topics", 120, "pre-created topics whose first publishes come from several connections at once")
+	firstTopics := flag.Int("first-topics", 200, "pre-created topics whose first publishes come from several connections at once")
 	flag.Parse()
 	if *workdir == "" {
 		d, err := os.MkdirTemp("", "ids-")
